@@ -704,13 +704,25 @@ pub fn c10(sc: &Scenario, rr: &RunResult) -> Vec<Violation> {
         match want {
             Some((r, acc)) => {
                 if o.seen_round != *r || o.seen_acc != *acc {
-                    let class = if o.seen_round < *r { "stale-state" } else if o.seen_round > *r { "state-from-the-future" } else { "wrong-state" };
+                    let class = if o.seen_round < *r {
+                        if o.inner_path.is_some() {
+                            "stale-outer-state-in-nested-body"
+                        } else {
+                            "stale-state"
+                        }
+                    } else if o.seen_round > *r {
+                        "state-from-the-future"
+                    } else {
+                        "wrong-state"
+                    };
                     out.push(viol(
                         "C10",
                         class,
                         format!(
-                            "loop at step {:?}: replica {:?} processed an element of round {} while reading state (round {}, acc {}); the state produced by round {} is (round {}, acc {})",
-                            o.loop_path, o.coord, o.true_round, o.seen_round, o.seen_acc, o.true_round as i64 - 1, r, acc
+                            "loop at step {:?}{}: replica {:?} processed an element of round {} while reading state (round {}, acc {}); the state produced by round {} is (round {}, acc {})",
+                            o.loop_path,
+                            o.inner_path.as_ref().map(|p| format!(" (read inside the nested loop at {:?})", p)).unwrap_or_default(),
+                            o.coord, o.true_round, o.seen_round, o.seen_acc, o.true_round as i64 - 1, r, acc
                         ),
                     ));
                     break;
